@@ -8,6 +8,66 @@ from ..runner import Check
 PID = "C02"
 
 
+def gauss_anchor(item):
+    """Kernel-only identity tying facet kernels to cell kernels, independent of R:
+    sum over all local facets of  int_f u n_i ds  ==  int_K d_i u dx   (u in P2, every component i, several geometry classes)."""
+    import basix.ufl
+    import numpy as np
+    import ufl
+
+    from .. import engine, forms, oracle
+
+    cell, geom, seed = item
+    res = dict(key=f"gauss:{cell}:{geom}", status="ok", calls=0, maxdev=0.0, failures=[])
+    try:
+        mesh, gdim, cdeg = forms.make_mesh(cell, geom)
+    except forms.Inapplicable:
+        res["status"] = "inapplicable"
+        return res
+    td = oracle.TDIM[cell]
+    V = ufl.FunctionSpace(mesh, basix.ufl.element("P", cell, 2))
+    u = ufl.Coefficient(V)
+    n = ufl.FacetNormal(mesh)
+    md = {"quadrature_degree": 10}
+    rng = np.random.default_rng([seed, 31])
+    for i in range(gdim):
+        Fb = u * n[i] * ufl.ds(domain=mesh, metadata=md)
+        Fc = u.dx(i) * ufl.dx(domain=mesh, metadata=md)
+        try:
+            cb, cc = engine.Compiled(Fb, "float64"), engine.Compiled(Fc, "float64")
+        except Exception as e:
+            res["status"] = "rejected"
+            res["why"] = f"{type(e).__name__}: {str(e)[:100]}"
+            return res
+        try:
+            for inst, X in engine.geometry_instances(mesh, cell, geom, rng, ("aff", "rev")):
+                w = rng.uniform(0.5, 1.5, size=V.ufl_element().dim)
+                X3 = engine.pack_geometry([X])
+                call = engine.Call("float64", np.zeros(1), w, np.zeros(0), X3, (0,), (0, 0), null_entity=True)
+                call.run(cc.kernels[cc.kernels_for("cell", -1)[0]])
+                vol = call.result()[0]
+                tot = 0.0
+                for f in range(oracle.num_entities(cell, td - 1)):
+                    ecell = oracle.entity_cellname(cell, td - 1, f) if td > 1 else "point"
+                    tag = 0 if ecell == "point" else int(oracle.celltype(ecell))
+                    ks = [k for k in cb.kernels_for("exterior_facet", -1) if cb.kernels[k].domain == tag]
+                    c2 = engine.Call("float64", np.zeros(1), w, np.zeros(0), X3, (f,), (0, 0))
+                    for k in ks:
+                        c2.run(cb.kernels[k])
+                    tot += c2.result()[0]
+                    res["calls"] += 1
+                dev = abs(tot - vol) / max(abs(vol), 1e-3)
+                res["maxdev"] = max(res["maxdev"], dev)
+                if dev > 1e-10:
+                    res["failures"].append(dict(kind="gauss", text=f"{cell}/{geom}/{inst}, component {i}: sum over facets of int u n_{i} ds = {tot!r} but int d_{i} u dx = {vol!r}"))
+        finally:
+            cb.cleanup()
+            cc.cleanup()
+    if res["failures"]:
+        res["status"] = "violation"
+    return res
+
+
 def main():
     chk = Check(PID)
     radius = 2 if chk.thorough else 1
@@ -22,7 +82,19 @@ def main():
     mode = "full" if chk.thorough else "quick"
     inst = ("aff", "rev") if chk.thorough else ("aff",)
     counts, samples, rejected, unsupported = bcheck.run_configs(chk, nodes, kw=dict(entity_mode=mode, instances=inst), desc="C02")
+    from ..runner import pmap as _pmap
+
+    gauss_items = [(c, g, chk.seed) for c in space.CELLS if c != "prism" for g in ("affine", "general", "p2", "manifold")]
+    gauss = dict(cases=0, calls=0, maxdev=0.0)
+    for it, r in _pmap(gauss_anchor, gauss_items, desc="C02-gauss"):
+        if r["status"] == "ok":
+            gauss["cases"] += 1
+            gauss["calls"] += r["calls"]
+            gauss["maxdev"] = max(gauss["maxdev"], r["maxdev"])
+        elif r["status"] == "violation":
+            chk.violation(f"{PID}:{r['key']}:gauss", r["failures"][0]["text"], recipe=dict(kind="gauss", item=list(it)), observed=r["failures"][:3])
     cov = dict(
+        gauss_theorem_anchor=gauss,
         states=len(nodes), transitions=edges, traces_validated_against_impl=counts["ok"] + counts["violating"],
         evaluations=counts["kernel_calls"], distinct_nontrivial=counts["nontrivial_configs"],
         radius=radius, nodes_by_distance=by, counts=counts, entity_mode=mode,
@@ -38,4 +110,11 @@ def main():
 
 
 def replay(path):
+    import json
+
+    doc = json.load(open(path))
+    if doc["recipe"].get("kind") == "gauss":
+        r = gauss_anchor(tuple(doc["recipe"]["item"]))
+        print(r)
+        return 1 if r["status"] == "violation" else 0
     return bcheck.replay_config(path)
